@@ -276,6 +276,8 @@ def register(prop, module_name, fn, mode_fixed, graphs, *, lemma, what, bounds, 
         pre = list(pre) + list(extra_pre)
         if extra_example:
             ex.update(extra_example)
+        if extra_example is None and extra_params:
+            ex = None          # no reachability witness (a harness whose whole point is a listed known finding)
         fixed = {"gid": g.gid}
         fixed.update(mode_fixed)
         fname = "%s_%s" % (name_prefix or fn.__name__, g.gid)
@@ -473,9 +475,15 @@ def h_fault(gid, xk, hist=False, **a):
                 filled["%s%d" % (nm, j)] = a["%s%da" % (nm, j)] if present else a["%s%db" % (nm, j)]
         filled["p%d" % j] = True
     full = mkdict(g.universe, filled)          # the same options with every missing key supplied (fresh symbolic values)
+    top = g.spec
+    plain_top = top[0] == "ds" and "dispatch" not in top[3] and not top[3].get("abstract")
     with quiet():
         for o2 in (o, full):
+            mark = len(env_r.log)
             again = outcome(lambda: real(o2))
+            if o2 is o and not _ok(got) and _ok(again) and plain_top and ("body", top[1]) not in env_r.log[mark:]:
+                note("the failed evaluation left a stored value behind: the body did not run again", env_r.log[mark:])
+                return 0
             clean = outcome(lambda: fresh(g, Env())(o2))
             note("later evaluation", o2, "long-lived graph", again, "fresh graph", clean)
             if _ok(again) != _ok(clean):
